@@ -53,10 +53,10 @@ ALLOWED = (SyntaxError, ValueError, KeyError)
 KNOWN_MISPLACED = "Antecedent.load/misplaced-connectives-accepted"
 
 WORDS = {"quick": ["if", "then", "with", "and", "or", "is", "(", ")", "ia", "ib", "oa", "lo", "hi", "big", "very", "any", "0.5"],
-         "thorough": ["if", "then", "with", "and", "or", "is", "(", ")", "ia", "ib", "oa", "lo", "hi", "big", "very", "any", "0.5", "not", ",", "sin", "+"]}
+         "thorough": ["if", "then", "with", "and", "or", "is", "(", ")", "ia", "ib", "oa", "lo", "hi", "big", "very", "any", "0.5", "not", ",", "sin", "+", "0.0"]}
 ENGINE = {"inputs": {"ia": ["lo", "hi"], "ib": ["lo"]}, "outputs": {"oa": ["lo", "big"]}}
 HEDGES = ["very", "any", "not"]
-NUMBERS = ["0.5"]
+NUMBERS = ["0.5", "0.0"]      # "0.0": a number that is falsy (a weight of zero is a weight)
 
 PY_ENGINE = '''
 def build_c16_engine(fl, K=str):
@@ -347,7 +347,7 @@ build_c16_engine = _ns["build_c16_engine"]
 GARGS = (ENGINE["inputs"], ENGINE["outputs"], HEDGES, NUMBERS)
 
 
-def ob_rule(template, tier, preload, label, max_paths=None, cell=None, only=None):
+def ob_rule(template, tier, preload, label, max_paths=None, cell=None, only=None, extra=()):
     """every rule text matching the template: a list whose items are words (fixed) or None (a symbolic token);
     `cell` = (index of a free position, vocabulary index) restricts that token (work splitting)"""
 
@@ -357,7 +357,7 @@ def ob_rule(template, tier, preload, label, max_paths=None, cell=None, only=None
         tokens.reset_registry()
         if max_paths:
             ob.max_paths = max_paths
-        vocab = Vocab(WORDS[tier])
+        vocab = Vocab(WORDS[tier] + [w for w in extra if w not in WORDS[tier]])      # `extra`: words added for this obligation only
         L = len(template)
         free = [i for i, w in enumerate(template) if w is None]
         kinds = [z3.Int(f"k{i}") if template[i] is None else z3.IntVal(vocab.idx(template[i])) for i in range(L)]
@@ -717,7 +717,7 @@ def obligations(tier, seed):
     singles = [w for w in ("and", "or", "(", ")", "ia", "ib", "oa", "then", ",") if voc.idx(w) is not None]
     groups = [(w, [voc.idx(w)]) for w in singles] + [("other", [j for j in range(voc.n) if voc.spell(j) not in singles])]
 
-    def add(name, template, preload=None, split=0, only=None):
+    def add(name, template, preload=None, split=0, only=None, extra=()):
         import itertools
         free = [i for i, w in enumerate(template) if w is None]
         if split and len(free) >= split:
@@ -728,7 +728,7 @@ def obligations(tier, seed):
                 cell = tuple((free[i], combo[i][1]) for i in range(split))
                 obs.append((f"{name}/starts={tag}", ob_rule(template, tier, preload, f"{name}/starts={tag}", 400000, cell, only)))
         else:
-            obs.append((name, ob_rule(template, tier, preload, name, 400000, None, only)))
+            obs.append((name, ob_rule(template, tier, preload, name, 400000, None, only, extra)))
 
     for L in range(1, 8 if q else 10):
         add(f"rule/any{L}", [None] * L, split=0 if L < 7 else (1 if L < 9 else 2))
@@ -746,6 +746,9 @@ def obligations(tier, seed):
     HEAD = ["if", "ia", "is", "lo", "then"]
     for M in range(1, 7 if q else 9):
         add(f"consequent/any{M}", HEAD + [None] * M)
+    # what may follow a complete conclusion: weights (one of them zero), connectives, further conclusions
+    for M in (1, 2, 3, 4):
+        add(f"consequent/weights{M}", HEAD + ["oa", "is", "lo"] + [None] * M, only=["with", "0.5", "0.0", "and", "oa", "is", "lo"], extra=["0.0"])
     PRE = "if ia is hi and ib is lo then oa is big with 0.5"
     for L in range(1, 6 if q else 7):
         add(f"reload/any{L}", [None] * L, preload=PRE)
